@@ -79,6 +79,8 @@ func runCase(line string) (out string) {
 		return runSock(its)
 	case "fl":
 		return runFl(its)
+	case "flx":
+		return runFlx(its[0])
 	}
 	return "BAD_CASE"
 }
